@@ -23,6 +23,7 @@ enum Mode {
     Now,
     Short, // delayed well inside the timeout, so that replies overtake each other
     Late,  // released long after the timeout
+    Late15, // released 1.5 × timeout after receipt: arrives while the *next* requestor generation has a call pending
     Never,
     Twice,
     UnknownFirst,
@@ -34,6 +35,7 @@ impl Mode {
             Mode::Now => "now",
             Mode::Short => "short",
             Mode::Late => "late",
+            Mode::Late15 => "late15",
             Mode::Never => "never",
             Mode::Twice => "twice",
             Mode::UnknownFirst => "unknown-first",
@@ -43,6 +45,7 @@ impl Mode {
         match s {
             "short" => Mode::Short,
             "late" => Mode::Late,
+            "late15" => Mode::Late15,
             "never" => Mode::Never,
             "twice" => Mode::Twice,
             "unknown-first" => Mode::UnknownFirst,
@@ -132,6 +135,14 @@ async fn spawn_replier(addr: SocketAddr, certs: &Certs, topic: &str, comp: Optio
                 }
                 Mode::Late => {
                     let d = (timeout_ms * 8).max(2000);
+                    tokio::spawn(async move {
+                        tokio::time::sleep(Duration::from_millis(d)).await;
+                        log2.lock().unwrap().sent += 1;
+                        let _ = tx2.send(reply);
+                    });
+                }
+                Mode::Late15 => {
+                    let d = timeout_ms * 3 / 2;
                     tokio::spawn(async move {
                         tokio::time::sleep(Duration::from_millis(d)).await;
                         log2.lock().unwrap().sent += 1;
@@ -269,6 +280,58 @@ async fn run_scenario(addr: SocketAddr, certs: Certs, sc: &Scenario, seed: u64) 
     Ok((calls, l.received, l.sent))
 }
 
+/// successive requestor generations on one topic: each sends a sentinel and then a request whose reply is
+/// released 1.5 × timeout later, times out and goes away; the next generation's pending call (with the same
+/// req_id, as every stream numbers its requests from 0) must never be completed by that stale reply
+async fn run_generations(addr: SocketAddr, certs: Certs, id: u64, generations: usize, timeout_ms: u64) -> std::result::Result<(Vec<Call>, u64, u64), String> {
+    let topic = unique_topic("c04g", id);
+    let log = Arc::new(Mutex::new(ReplierLog { received: 0, sent: 0, prompt_sent: HashMap::new() }));
+    let (_raw, rep_task) = spawn_replier(addr, &certs, &topic, None, timeout_ms, log.clone()).await.map_err(|e| format!("raw replier: {e}"))?;
+    let t0 = Instant::now();
+    let mut calls = vec![];
+    let mut client = lib_client(&addr.to_string(), &certs, None).await.map_err(|e| format!("connect: {e}"))?;
+    for g in 0..generations {
+        if g % 3 == 2 {
+            // every third generation arrives on a fresh connection
+            client = lib_client(&addr.to_string(), &certs, None).await.map_err(|e| format!("connect: {e}"))?;
+        }
+        let mut rq = client
+            .requestor(&topic)
+            .with_request_encoder(StringCodec)
+            .with_reply_decoder(StringCodec)
+            .with_request_timeout(timeout_ms)
+            .map_err(|e| e.to_string())?
+            .open()
+            .await
+            .map_err(|e| format!("open requestor: {e}"))?;
+        let label = format!("generation{}", g);
+        for (k, mode) in [(0, Mode::Now), (1, Mode::Late15)] {
+            let payload = format!("{}#{};mode={};", label, k, mode.name());
+            let start = t0.elapsed().as_millis();
+            let r = match tokio::time::timeout(Duration::from_millis(timeout_ms + 20_000), rq.request(payload.clone())).await {
+                Ok(r) => r,
+                Err(_) => {
+                    calls.push(Call { id: payload, mode, requestor: label.clone(), start_ms: start, end_ms: t0.elapsed().as_millis(), result: Err("HUNG: request() did not return within timeout + 20 s".into()), timed_out: false });
+                    break;
+                }
+            };
+            let end = t0.elapsed().as_millis();
+            let (result, timed_out) = match r {
+                Ok(v) => (Ok(v), false),
+                Err(e) => {
+                    let t = is_timeout(&e);
+                    (Err(e.to_string()), t)
+                }
+            };
+            calls.push(Call { id: payload, mode, requestor: label.clone(), start_ms: start, end_ms: end, result, timed_out });
+        }
+        drop(rq);
+    }
+    rep_task.abort();
+    let l = log.lock().unwrap();
+    Ok((calls, l.received, l.sent))
+}
+
 pub fn run(rep: &mut StageReport, tier: &str, seed: u64) {
     let thorough = tier == "thorough";
     let rt = runtime(8);
@@ -294,6 +357,7 @@ pub fn run(rep: &mut StageReport, tier: &str, seed: u64) {
             timeout_ms: *rng.pick(&[250u64, 400]),
         });
     }
+    let (n_gen_scenarios, gens_per) = if thorough { (12usize, 40usize) } else { (2usize, 10usize) };
     let mark = panic_mark();
     let mut total_calls = 0u64;
     let mut prompt_timeouts = 0u64;
@@ -312,6 +376,14 @@ pub fn run(rep: &mut StageReport, tier: &str, seed: u64) {
                 Err(_) => Err("watchdog: scenario did not finish within 600 s".into()),
             }));
         }
+        for g in 0..n_gen_scenarios {
+            let tmo = if g % 2 == 0 { 300 } else { 500 };
+            let r = tokio::time::timeout(Duration::from_secs(600), run_generations(server.addr, certs.clone(), 1000 + g as u64, gens_per, tmo)).await;
+            out.push((1000 + g as u64, match r {
+                Ok(x) => x,
+                Err(_) => Err("watchdog: generations scenario did not finish within 600 s".into()),
+            }));
+        }
         server.stop();
         out
     });
@@ -328,7 +400,7 @@ pub fn run(rep: &mut StageReport, tier: &str, seed: u64) {
                 continue;
             }
         };
-        let timeout_ms = sc.map(|s| s.timeout_ms).unwrap_or(0) as u128;
+        let timeout_ms = sc.map(|s| s.timeout_ms).unwrap_or(if sid % 2 == 0 { 300 } else { 500 }) as u128;
         rep.count("requests_seen_by_scripted_replier", received);
         rep.count("replies_written_by_scripted_replier", sent);
         let mut sample_hist = vec![];
@@ -353,6 +425,10 @@ pub fn run(rep: &mut StageReport, tier: &str, seed: u64) {
                         viol = Some(("wrong-reply".into(), format!("request {:?} returned Ok with the reply {:?}", c.id, v)));
                     } else if matches!(c.mode, Mode::Never) {
                         viol = Some(("reply-from-nowhere".into(), format!("request {:?} was never answered by the replier yet returned Ok({:?})", c.id, v)));
+                    } else if matches!(c.mode, Mode::Late15) {
+                        // own reply released at 1.5 × timeout: accepting it needs a late timer, which a loaded
+                        // machine can produce; counted, not a violation
+                        rep.count("late15_own_reply_accepted(counted)", 1);
                     } else if matches!(c.mode, Mode::Late) {
                         viol = Some(("timeout-not-enforced".into(), format!("request {:?} was answered {} ms after it was received (timeout {} ms) yet returned Ok after {} ms", c.id, (timeout_ms * 8).max(2000), timeout_ms, took)));
                     }
@@ -361,7 +437,7 @@ pub fn run(rep: &mut StageReport, tier: &str, seed: u64) {
                     viol = Some(("request-hung".into(), format!("request {:?} (mode {}) neither returned a reply nor a timeout error: {}", c.id, c.mode.name(), e)));
                 }
                 Err(e) => {
-                    if matches!(c.mode, Mode::Never | Mode::Late) {
+                    if matches!(c.mode, Mode::Never | Mode::Late | Mode::Late15) {
                         if !c.timed_out {
                             viol = Some(("wrong-error".into(), format!("unanswered request {:?} failed with {:?} instead of the timeout error", c.id, e)));
                         } else if took > timeout_ms + 15_000 {
@@ -374,7 +450,7 @@ pub fn run(rep: &mut StageReport, tier: &str, seed: u64) {
                     }
                 }
             }
-            if !matches!(c.mode, Mode::Never | Mode::Late) {
+            if !matches!(c.mode, Mode::Never | Mode::Late | Mode::Late15) {
                 sc_prompt += 1;
             }
             match viol {
